@@ -41,6 +41,11 @@ CLAIMED = {
         "Trusted: go/types, the path enumerator over the walker's syntax. Assumed: trees contain only the module's node kinds. Not decided: what user visitors do. One known finding (F12: inRange shares one operand node).",
         "exhaustiveness + per-path slot-consumption analysis of the walker's type switch (AST paths, go/types), who-passes-which-tree dataflow in expr.Compile, rewrite-site linearity",
         "DESIGN.md §4 C10, §3 E1/E6"),
+    "C13": (
+        "That every node, error and instruction CARRIES a location taken from the construct it describes — a necessary condition of reporting the right position: every node literal the parser builds has SetLocation called on it with a non-empty location before it is returned, stored or reassigned; of the nodes the optimizer passes and the operator patcher build, the root of a replacement goes through ast.Patch (which copies the location, C10 R10.4) and every nested fresh node is given a location explicitly or is of a kind whose code cannot fail (templates of constant pushes whose handlers only call the push/constant primitives); every file.Error literal takes its Location from a node, a token, the lexer position or the program's location table; the emitter files the location of the node on top of its node stack under the offset of the opcode it appends, the node stack is pushed and popped around every dispatch, and the VM's recover handler looks the table up with the saved offset of the opcode being executed.",
+        "Trusted: go/types, the template and signature extractors (shared with C05), the rewrite-site extractor (shared with C10). NOT decided: that the location a node carries is the right one (map keys and pairs inherit the brace's position); column arithmetic for multi-line and non-ASCII sources; the snippet rendering; that every *file.Error leaving the API passed through Bind with the right source (R13.5 not built).",
+        "who-locates-what census over node and error literals + affine agreement of the location table key with the VM's lookup",
+        "DESIGN.md §4 C13"),
     "C14": (
         "Exhaustive table check (finite instance space, exhaustive: true): one total rank of the twelve numeric kinds is shared by the checker's weight function, the generator's kind list and the direction of every conversion in the generated helpers; every (kind, kind) case of every helper converts exactly the lower-ranked operand to the higher-ranked kind, operands in order; each case applies the helper's operator, which is the DSL operator whose compilation reaches that helper (template → opcode → handler → helper); the static type of each arithmetic case is the kind the checker predicts by weight, comparisons yield bool; all pairs present (modulo: integers only); negate/toInt/toInt64/toFloat64 cover all kinds in the plain Go form; generated file = generator table. Each case is a one-line Go expression whose meaning is Go's, so this decides the property up to Go's semantics of conversions and operators.",
         "Trusted: go/types and the Go specification. Not decided: the position of the platform-sized uint/int inside their groups (taken from the repository's two tables, which must agree); integer division by zero is Go's panic, contained by Run's recover (C04, not claimed here).",
@@ -56,7 +61,6 @@ NOT_APPLICABLE = {
     "C03": "type soundness over all environment values of a type needs an abstract interpretation of checker and VM over reflect types that is out of reach; the agreement rules of DESIGN.md §4 C03 were not built. " + _NOT_BUILT,
     "C11": "round-trip equality of printing and parsing for every tree, and agreement with a reference grammar for every token sequence, are statements about parser results; the binding-power table cross-check of DESIGN.md §4 C11 was not built. " + _NOT_BUILT,
     "C12": "exactness of lexed string and number values for every literal is a statement about run-time values of the scanner; the classification-order rules of DESIGN.md §4 C12 were not built. " + _NOT_BUILT,
-    "C13": "that the reported position is that of the offending occurrence depends on which node fails at run time; the location-propagation rules of DESIGN.md §4 C13 were not built. " + _NOT_BUILT,
     "C15": "equality of results between typed and untyped compilation for every environment value is a run-time equivalence; the instruction-selection guard rules of DESIGN.md §4 C15 were not built. " + _NOT_BUILT,
     "C16": "agreement of the checker's name table with reflection-based lookup for every environment type quantifies over all Go types; the member-class agreement rules of DESIGN.md §4 C16 were not built. " + _NOT_BUILT,
     "C17": "equivalence of an overloaded operator occurrence with the function call for every operand value is behavioural; the patcher/checker agreement rules of DESIGN.md §4 C17 were not built (the traversal part it relies on is decided under C10). " + _NOT_BUILT,
